@@ -5,9 +5,6 @@ CONSTANTS
   MaxFaults = 2
   SessionLoss = TRUE
   LossyWrites = FALSE
-INVARIANT Qos2AtMostOnce
-INVARIANT CompletedIsDelivered
-INVARIANT NoPubrelUnanswered
-INVARIANT NothingStuck
+INVARIANT EmitScript
 VIEW NoHist
 CHECK_DEADLOCK FALSE
